@@ -18,6 +18,12 @@ CLAIMED = {
             'Lean 4 proof + trace validation of real histories against the model', '7 C06'),
     'C07': ('cursor-over-sorted-map specification of the user iterator; every iterator step of real histories (direction changes, all seek kinds, snapshots, three comparators) must land where the '
             'map cursor over the model state dictates; implementation-side iterator models and their refinement theorems', 'Lean 4 proof + trace validation of real histories against the model', '7 C07'),
+    'C08': ('linearizability theorems over the Conc transition system (commit_once, fifo/real-time order, reader_linearizable, batch atomicity for readers) for all schedules and all '
+            'data-dependent outcomes; real multi-threaded runs under a deterministic scheduler judged by a linearizability oracle and replayed, critical section by critical section, on the model',
+            'Lean 4 proof + schedule exploration with trace validation against the model', '7 C08'),
+    'C09': ('wakeup invariants and no_deadlock over the Conc transition system (every reachable state with an operation in flight has an enabled non-invocation step); real runs under the '
+            'deterministic scheduler with deadlock ("unfinished, none runnable") and step-bound detection; every observed signal/broadcast checked against the model step',
+            'Lean 4 proof + schedule exploration with trace validation against the model', '7 C09'),
     'C12': ('kill/close durability theorems applied to the conforming prefix before the fault; fault-injection runs of the real code (k-th call fails; ENOSPC/EIO/EMFILE/ENOENT; one-shot/persistent; '
             'partial writes) through the same crash oracle: no crash or hang, reads correct, every acknowledged write present after reopen', 'Lean 4 proof + fault-injection trace validation', '7 C12'),
     'C13': ('keep-rule/live-set model: at every quiescent point the directory must contain exactly the live tables, the current log(s), one MANIFEST; every live file number below next_file_number',
@@ -41,6 +47,8 @@ CLAIMED = {
             'ldb_edit_export/import and the varint coders', 'Lean 4 proof + model/implementation correspondence', '7 C17'),
     'C18': ('no-fault/totality theorems for every modelled decoder (explicit guards mirrored from the C code; fault outcome unreachable), with sanitizer-backed differential fuzzing of the real decoders '
             'against the models on malformed and hand-crafted inputs', 'Lean 4 proof + sanitizer-backed differential correspondence', '7 C18'),
+    'C19': ('repair theorems over the Repair/Lsm models (no entry lost or invented, iterator = newest per key, counters continue, point lookups correct iff numbering follows age, with a '
+            'kernel-checked witness for the failing case); repair histories on the real database validated against the rebuilt model state', 'Lean 4 proof + trace validation of real histories against the model', '7 C19'),
     'C20': ('owned-file-name grammar theorem for ldb_parse_filename (destroy touches only owned names) + exact correspondence on all short strings; lifecycle sequences vs model',
             'Lean 4 proof + model/implementation correspondence', '7 C20'),
 }
